@@ -70,6 +70,17 @@ func (e VerificationError) Is(other error) bool {
 	return is
 }
 
+// Unwrap returns the errors passed as arguments, so that errors.Is / errors.As see the cause.
+func (e VerificationError) Unwrap() []error {
+	var errs []error
+	for _, a := range e.args {
+		if err, ok := a.(error); ok {
+			errs = append(errs, err)
+		}
+	}
+	return errs
+}
+
 func newVerificationError(msg string, args ...interface{}) error {
 	return VerificationError{msg: msg, args: args}
 }
